@@ -43,6 +43,12 @@ func (lv LiteralValue) Copy() Constraint {
 }
 
 func (lv LiteralValue) EmptyCompletionData(ctx context.Context, nextPlaceholder int, nestingLevel int) CompletionData {
+	if lv.Value.IsNull() || !lv.Value.IsKnown() {
+		// null and unknown values have no literal form to pre-fill
+		return CompletionData{
+			NextPlaceholder: nextPlaceholder,
+		}
+	}
 	if lv.Value.Type().IsPrimitiveType() {
 		var value string
 		switch lv.Value.Type() {
@@ -219,6 +225,9 @@ func (lv LiteralValue) EmptyCompletionData(ctx context.Context, nextPlaceholder 
 }
 
 func (lv LiteralValue) EmptyHoverData(nestingLevel int) *HoverData {
+	if lv.Value.IsNull() || !lv.Value.IsKnown() {
+		return nil
+	}
 	if lv.Value.Type().IsPrimitiveType() {
 		var value string
 		switch lv.Value.Type() {
